@@ -371,6 +371,7 @@ class ASTTypeBuilder:
             description=object_type.description,
             fields=fields,
             interfaces=interfaces,
+            default_resolver=object_type.default_resolver,
             nodes=object_type.nodes + extensions,  # type: ignore
         )
 
@@ -382,7 +383,9 @@ class ASTTypeBuilder:
             deprecation_reason=field_def.deprecation_reason,
             args=[self._extend_argument(a) for a in field_def.arguments],
             resolver=field_def.resolver,
+            subscription_resolver=field_def.subscription_resolver,
             node=field_def.node,
+            python_name=field_def.python_name,
         )
 
     def _extend_interface_type(
@@ -409,6 +412,7 @@ class ASTTypeBuilder:
             name,
             description=interface_type.description,
             fields=fields,
+            resolve_type=interface_type.resolve_type,
             nodes=interface_type.nodes + extensions,  # type: ignore
         )
 
@@ -464,6 +468,8 @@ class ASTTypeBuilder:
         return UnionType(
             name,
             types=member_types,
+            resolve_type=union_type.resolve_type,
+            description=union_type.description,
             nodes=union_type.nodes + extensions,  # type: ignore
         )
 
@@ -483,6 +489,7 @@ class ASTTypeBuilder:
                 default_value=f._default_value,
                 description=f.description,
                 node=f.node,
+                python_name=f.python_name,
             )
             for f in input_object_type.fields
         ]
@@ -525,6 +532,7 @@ class ASTTypeBuilder:
             default_value=argument._default_value,
             description=argument.description,
             node=argument.node,
+            python_name=argument.python_name,
         )
 
 
